@@ -52,13 +52,16 @@ def _check(sim, eng, ref, stage):
     symx.observe(f'{stage}.lens', [len(list(hist.get_txnums(HX[i], limit=None))) for i in ref])
 
 
-def _reopen(sim, compacting):
+def _reopen(sim, compacting, serve=False):
     sim._close_db()
     sim.env, sim.db = sim.world.new_db()
     if compacting:
         chain.run(sim.db.open_for_compacting())
     else:
         chain.run(sim.db.open_for_sync())
+        if serve:
+            # the server is already caught up when it starts: nothing is flushed before it re-opens for serving
+            chain.run(sim.db.open_for_serving())
     return sim.db.history
 
 
@@ -87,7 +90,7 @@ def scenario(shape):
         sim.open()
         ref = _build(sim, eng, shape)
         _check(sim, eng, ref, 'built')
-        limit = eng.fresh_int('limit', 1, None) if shape.get('sym_limit', True) else 8 * 1000 * 1000
+        limit = eng.fresh_int('limit', 1, None) if shape.get('sym_limit', True) else shape.get('limit', 8 * 1000 * 1000)
         hist = _reopen(sim, True)
         hist.max_hist_row_entries = shape['row']
         mode = shape['mode']
@@ -105,18 +108,19 @@ def scenario(shape):
                 pass
             eng.note(f'stopped after {shape["stop_after"]} batch(es), finished={done}')
         _check(sim, eng, ref, 'compacted')
-        hist = _reopen(sim, False)              # normal start (cancels an unfinished compaction)
+        hist = _reopen(sim, False, serve=shape.get('serve', False))   # normal start (cancels an unfinished compaction)
         hist.max_hist_row_entries = shape['row']
         _check(sim, eng, ref, 'normal-start')
-        if mode == 'twice':
+        if mode == 'twice' or shape.get('then_twice'):
             # index a block that leaves the multi-row script hash 0 untouched, compact a second time,
             # then index a block that touches it
             import electrumx.lib.util as util
-            e = eng.fresh_word('mid2', 40)
-            if ref[2] and not sim.native:
-                eng.assume(e > ref[2][-1])
-            ref[2].append(e)
-            hist.unflushed[HX[2]].extend(util.pack_le_uint64(e)[:5])
+            for i in ((0, 1, 2) if shape.get('then_twice') else (2,)):
+                e = eng.fresh_word(f'mid{i}', 40)
+                if ref[i] and not sim.native:
+                    eng.assume(e > ref[i][-1])
+                ref[i].append(e)
+                hist.unflushed[HX[i]].extend(util.pack_le_uint64(e)[:5])
             hist.flush()
             sim.db.state.flush_count = hist.flush_count
             sim.db.write_utxo_state(sim.db.utxo_db)
@@ -222,6 +226,14 @@ def shapes(tier):
     if tier == 'thorough':
         out.append({'row': 2, 'flushes': [(2, 1, 1), (2, 1, 0), (2, 0, 1), (0, 1, 1)], 'mode': 'twice'})
         out.append({'row': 3, 'flushes': [(3, 0, 1), (3, 2, 0), (2, 0, 2)], 'mode': 'twice'})
+    # a compaction killed between batches, a start with no block pending (open for sync, then for serving, nothing
+    # flushed in between), a block touching every script hash, a second compaction to completion, more blocks
+    out.append({'row': 2, 'flushes': [(2, 1, 0), (2, 0, 1), (1, 1, 1)], 'mode': 'abandon', 'stop_after': 1, 'serve': True,
+                'then_twice': True, 'sym_limit': tier != 'quick', 'limit': 1})
+    if tier == 'thorough':
+        out.append({'row': 2, 'flushes': [(2, 1, 0), (2, 0, 1), (1, 1, 1)], 'mode': 'abandon', 'stop_after': 2, 'serve': True,
+                    'then_twice': True})
+        out.append({'row': 2, 'flushes': [(2, 1, 0), (2, 0, 1), (1, 1, 1)], 'mode': 'twice', 'serve': True})
     for b in bases:
         out.append(dict(b, mode='complete'))
         for stop in (1, 2):
